@@ -17,6 +17,7 @@ mod c15;
 mod c16;
 mod dec;
 mod c17;
+mod c19;
 mod fmt;
 mod rng;
 
@@ -160,6 +161,7 @@ fn main() {
         "c14" => c14::run(&mut ctx, replay_lines.as_deref()),
         "c15" => c15::run(&mut ctx, replay_lines.as_deref()),
         "c16" => c16::run(&mut ctx, replay_lines.as_deref()),
+        "c19" => c19::run(&mut ctx, replay_lines.as_deref()),
         "c17" => c17::run(&mut ctx, replay_lines.as_deref()),
         _ => {
             eprintln!("unknown property {}", prop);
